@@ -79,4 +79,20 @@ CHECKS = {
         "quick": {"checks": 700, "timeout": 300, "shrinktime": "10s", "gomaxprocs": 1},
         "thorough": {"checks": 15000, "timeout": 2400, "shrinktime": "30s", "gomaxprocs": 1},
     },
+    "C13": {
+        "pkg": "log", "test": "TestVerif_C13", "deciding": ["logmodel", "no-crash"], "level": "exploration",
+        "replay_test": "TestVerif_LogReplay",
+        "rule": "cases = rapid-generated operation sequences on one log directory (SegmentSize in {1024,2048,4096,8192,16384}): fill phase 0..80 appends, then 1..40 ops from Append(size in {0,1,8,..,seg-25,seg-24,seg-23,3*seg, random small}), Commit, CommitN, Get, GetN (multi-segment), Contains, CanLTE+RemoveLTE, RemoveGTE, Reset, Close+Open (same/other SegmentSize), ViewAt, concurrent view readers while appending; indexes drawn relative to every boundary (0, prev, prev+-1, last, last+1, last+2, every segment file boundary +-1). Oracle = reference model (prev, [][]byte): every return value (bytes of Get, concatenation of GetN, Contains, PrevIndex/LastIndex/Count after every op, ErrNotFound at/below prev, documented panic beyond last, ErrExceedsSegmentSize exactly when the tail segment is empty and the entry does not fit), RemoveLTE result == CanLTE reported before, <= max(i, old prev) and == lowest segment file name in the directory, views return the model bytes for their whole range (Get and GetN) while 1-4 reader goroutines re-read them during appends. non-trivial: >=2 segments (or a roll-over) and >=1 removal or reopen; distinct by hash of the op list",
+        "assumptions": ["views are used as documented: discarded after RemoveLTE/RemoveGTE/Reset/Close", "entry payloads carry a unique sequence number (sizes < 8 bytes cannot)"],
+        "quick": {"checks": 1500, "timeout": 300, "shrinktime": "10s", "gomaxprocs": 2, "variants": [{"race": False, "share": 0.75}, {"race": True, "share": 0.25, "scale": 0.2}]},
+        "thorough": {"checks": 20000, "timeout": 2400, "shrinktime": "30s", "gomaxprocs": 2, "variants": [{"race": False, "share": 0.75}, {"race": True, "share": 0.25, "scale": 0.2}]},
+    },
+    "C14": {
+        "pkg": "log", "test": "TestVerif_C14", "deciding": ["logmodel", "no-crash"], "level": "fault_enumeration",
+        "replay_test": "TestVerif_LogReplay",
+        "rule": "cases = rapid-generated operation sequences on one log directory (SegmentSize in {1024,2048,4096,8192,16384}): fill phase 0..80 appends, then 1..40 ops from Append(size in {0,1,8,..,seg-25,seg-24,seg-23,3*seg, random small}), Commit, CommitN, Get, GetN (multi-segment), Contains, CanLTE+RemoveLTE, RemoveGTE, Reset, Close+Open (same/other SegmentSize), ViewAt, concurrent view readers while appending; indexes drawn relative to every boundary (0, prev, prev+-1, last, last+1, last+2, every segment file boundary +-1) (mutating ops weighted up). Fault enumeration: at EVERY hook point hit inside every operation (segment.sync after 1st msync / after header store / after 2nd msync, removeGTE after header store, Append roll-over after Commit and after the new segment, RemoveLTE/RemoveGTE/Reset after each file removal and after re-creation, createSegment after create/truncate/write) a kill image (all files as they read at that instant) is taken, and for segments >= 8 KiB always, else 1 in 4, a power-loss image (per 4 KiB page either the content at the last msync/fsync or the current content). Oracle per image: Open succeeds; every visible entry equals the model's bytes at that index in the state before or after the interrupted operation; every entry committed before the operation and not removed by it is present. non-trivial: >=1 image taken strictly inside an operation; distinct by hash of the op list",
+        "assumptions": ["process-kill model: completed file operations survive; power-loss model: only msync'ed/fsync'ed page contents are guaranteed, directory operations are kept in program order (directory-entry loss is not modelled)"],
+        "quick": {"checks": 700, "timeout": 300, "shrinktime": "10s", "gomaxprocs": 1},
+        "thorough": {"checks": 12000, "timeout": 2400, "shrinktime": "30s", "gomaxprocs": 1},
+    },
 }
